@@ -40,8 +40,8 @@ def _L():
 
 def _sig(case, what):
     L = _L()
-    return "%s/geom=%s/model=%s/noise=%s/prior=%s/mean=%s/m=%d/n=%d" % (
-        what, case["geo"], case["mdl"], L.form_tag(case["noise"]), L.form_tag(case["prior"]), case["mk"], case["m"], case["n"])
+    return "%s/geom=%s/model=%s/noise=%s/prior=%s/mean=%s/m=%d/n=%d/A=%d" % (
+        what, case["geo"], case["mdl"], L.form_tag(case["noise"]), L.form_tag(case["prior"]), case["mk"], case["m"], case["n"], case["av"])
 
 
 def _geometry(case):
@@ -173,7 +173,7 @@ def check_map_case(ctx, case):
     _outcome(ctx, "sample/draws")
     if L.rel_err(off, mu) > RTOL_DIRECT:
         ctx.mismatch(_sig(case, "sample/offset"), case, "direct Gaussian sampling: draw for perturbation 0 is not the posterior mean", expected=mu, observed=off)
-    if L.rel_err(T @ T.T, cov) > RTOL_DIRECT:
+    if L.rel_err(T @ T.T, cov, scale=1e-3) > RTOL_DIRECT:
         ctx.mismatch(_sig(case, "sample/cov"), case, "direct Gaussian sampling: linear part L of the draw does not satisfy L L^T = Lambda^-1",
                      expected=cov, observed=T @ T.T)
 
